@@ -300,8 +300,14 @@ func (mltp MaskedLinearTransformationProtocol) Transform(ct *rlwe.Ciphertext, tr
 
 	*ciphertextOut.MetaData = metadata
 
+	// The transform changes the encoding domain only if it decodes or encodes:
+	// with neither the flag of the input describes the output as well.
 	if transform != nil {
-		ciphertextOut.IsBatched = transform.Encode
+		if transform.Encode {
+			ciphertextOut.IsBatched = true
+		} else if transform.Decode {
+			ciphertextOut.IsBatched = false
+		}
 	}
 
 	ciphertextOut.Scale = mltp.s2e.params.DefaultScale()
